@@ -797,6 +797,12 @@ func (f *frame) specParamTV(v TV, ty types.Type, env *Env) TV {
 
 func (f *frame) applySpec(sp *specInfo, x *CCall, env *Env) TV {
 	vc := f.vc
+	if sp.pkg == nil {
+		// spec of the shared std contract file: resolve its types from the using package
+		cp := *sp
+		cp.pkg = env.pkg
+		sp = &cp
+	}
 	if len(x.Args) != len(sp.c.Params) {
 		cfail("spec %s expects %d arguments", sp.c.Name, len(sp.c.Params))
 	}
@@ -819,6 +825,9 @@ func (f *frame) applySpec(sp *specInfo, x *CCall, env *Env) TV {
 		}
 	}
 	name := "spec:" + sp.pkg.Path() + "." + sp.c.Name
+	if f.eng().specs["std."+sp.c.Name] != nil && f.eng().specs["std."+sp.c.Name].c == sp.c {
+		name = "spec:std." + sp.c.Name
+	}
 	fn := q(name)
 	state := vc.specState[name] // "", "defining", "defined", "macro"
 	if state == "" {
